@@ -16,7 +16,7 @@ pub struct Somes<T>(pub usize, pub T);
 pub struct Holes<T>(pub usize, pub T);
 //@ end
 
-//@ item src/graph_impl/stable_graph/serialization.rs | - | struct SerStableGraph
+//@ item src/graph_impl/stable_graph/serialization.rs | - | struct SerStableGraph | serde=4a9bd69e36
 // Serialization representation for StableGraph
 // Keep in sync with deserialization and Graph
 pub struct SerStableGraph<'a, N: 'a, E: 'a, Ix: 'a + IndexType> {
